@@ -530,18 +530,32 @@ def main():
                 tbin = c.harness("c17", tsan=True)
                 if tbin:
                     tc_cases = [f"C {n} 400 {c.rng.randrange(1 << 30)}" for n in (2, 4, 8)] + ["K 3 p px p c:4 p rel p px"]
+                    import subprocess
                     for b in BACKENDS:
-                        rc, out, err = c.run_lines(tbin, tc_cases, [b], timeout=1200,
-                                                   env={"TSAN_OPTIONS": "halt_on_error=0 exitcode=66 second_deadlock_stack=1"})
-                        c.evaluations += len(tc_cases)
-                        races = "ThreadSanitizer" in err or rc == 66
-                        c.extra_cov[f"tsan_{b}"] = {"rc": rc, "cases": len(tc_cases), "report": bool(races)}
-                        if races:
-                            c.violation("ThreadSanitizer report while exercising the loop/pool from several threads",
-                                        {"backend": b, "case": tc_cases[0], "stderr": err[-3000:]})
-                        elif any(o != "ok" and not o.startswith("ran") for o in out):
-                            k = [i for i, o in enumerate(out) if o != "ok" and not o.startswith("ran")][0]
-                            c.violation("exactly-once violated under TSan build", {"backend": b, "case": tc_cases[k], "impl_output": out[k]})
+                        # one process per case, so that a report names the case it belongs to; the COMPLETE report is kept
+                        for tcase in tc_cases:
+                            env = dict(os.environ, TSAN_OPTIONS="halt_on_error=0 exitcode=66 second_deadlock_stack=1 history_size=4")
+                            try:
+                                pr = subprocess.run([tbin, b], input=(tcase + "\n").encode(), stdout=subprocess.PIPE,
+                                                    stderr=subprocess.PIPE, timeout=600, env=env, cwd=c.scratch)
+                                rc, out, err = pr.returncode, pr.stdout.decode("utf-8", "replace").splitlines(), pr.stderr.decode("utf-8", "replace")
+                            except subprocess.TimeoutExpired:
+                                rc, out, err = 124, [], "TIMEOUT"
+                            c.evaluations += 1
+                            races = "ThreadSanitizer" in err or rc == 66
+                            st = c.extra_cov.setdefault(f"tsan_{b}", {"cases": 0, "reports": 0})
+                            st["cases"] += 1
+                            if races:
+                                st["reports"] += 1
+                                rp = os.path.join(vcheck.ROOT, "replay", f"C17-tsan-{b}-{c.seed}.txt")
+                                open(rp, "w").write(f"case: {tcase}\nbackend: {b}\n\n{err}")
+                                kind = re.search(r"WARNING: ThreadSanitizer: ([^\n(]*)", err)
+                                c.violation("ThreadSanitizer report while exercising the loop/pool from several threads: "
+                                            + (kind.group(1).strip() if kind else "?"),
+                                            {"backend": b, "case": tcase, "tsan_report_file": rp, "tsan_report_full": err})
+                            elif not out or (out[0] != "ok" and not out[0].startswith("ran")):
+                                c.violation("exactly-once violated under TSan build (or the case did not finish)",
+                                            {"backend": b, "case": tcase, "impl_output": out[0] if out else None, "stderr": err[-3000:]})
     c.finish()
 
 
